@@ -574,7 +574,13 @@ namespace avel {
 
         [[nodiscard]]
         AVEL_FINL Vector operator-() const {
+            #if defined(AVEL_SSE2)
+            return Vector{_mm_xor_pd(content, _mm_set1_pd(double_sign_bit_mask))};
+            #endif
+
+            #if defined(AVEL_NEON)
             return Vector{0.0} - *this;
+            #endif
         }
 
         //=================================================
